@@ -14,7 +14,9 @@
    pack result is a 32-bit pattern, and are instantiated with the Flocq model flocq_fc. *)
 From Coq Require Import Lia.
 From Model Require Import Base Utf8 Ser Float32.
+From Model Require Registry.
 From Proofs Require Import BytesP Utf8P SerP SerNormP C13P Float32P.
+From Proofs Require RegistryP.
 Open Scope Z_scope.
 
 (* The statement without the premise [norm fc v = SOk nv],
@@ -137,6 +139,38 @@ Theorem C13_utf8_domain : forall s,
 Proof. exact (fun s => conj (utf8_encode_total s) (utf8_encode_surrogate s)). Qed.
 Print Assumptions C13_utf8_domain.
 
+(* ---------- the class registry (Model/Registry.v: SerializableType.__new__, SerializableEnumType.__new__,
+   setRootId).  The round-trip theorems above take the decode table as a function of type ids; these say the real
+   table IS one, for every sequence of class statements and setRootId calls: *)
+(* ... the table is a bijection between the ids in use and the registered classes *)
+Theorem C13_registry_bijection : forall ops, RegistryP.WF (fst (Registry.rrun Registry.reg0 ops)).
+Proof. intros ops. apply RegistryP.rrun_WF. exact RegistryP.WF_reg0. Qed.
+Print Assumptions C13_registry_bijection.
+
+(* ... so a type id decodes to the one class that was given this id, and no class has two ids *)
+Theorem C13_registry_lookup : forall s t c, RegistryP.WF s -> In (t, c) (Registry.r_reg s) ->
+  Registry.rget t (Registry.r_reg s) = Some c /\ forall t', In (t', c) (Registry.r_reg s) -> t' = t.
+Proof. exact RegistryP.WF_lookup. Qed.
+Print Assumptions C13_registry_lookup.
+
+(* ... a class statement that succeeds makes its class the one its id decodes to, and it stays so
+   whatever is defined later (Serializable or enum, any module, any setRootId) *)
+Theorem C13_defined_is_registered : forall s o s' t, Registry.rstep s o = (s', (t, 0)) ->
+  match o with Registry.RSetRoot _ _ => True | _ => Registry.rget t (Registry.r_reg s') = Some (Registry.r_defs s) end.
+Proof. exact RegistryP.defined_is_registered. Qed.
+Print Assumptions C13_defined_is_registered.
+
+Theorem C13_registered_stays : forall ops s t c, In (t, c) (Registry.r_reg s) ->
+  In (t, c) (Registry.r_reg (fst (Registry.rrun s ops))).
+Proof. exact RegistryP.registered_stays. Qed.
+Print Assumptions C13_registered_stays.
+
+(* ... and a class statement that is refused (id or name in use) leaves both tables unchanged *)
+Theorem C13_refused_leaves_tables : forall s o s' t code, Registry.rstep s o = (s', (t, code)) -> code <> 0 ->
+  Registry.r_reg s' = Registry.r_reg s /\ Registry.r_names s' = Registry.r_names s.
+Proof. exact RegistryP.refused_leaves_tables. Qed.
+Print Assumptions C13_refused_leaves_tables.
+
 (* ---------- non-vacuity: the premises hold for concrete registries and values, and the
    statements compute to what the implementation does *)
 Definition ex_reg : registry :=
@@ -208,3 +242,9 @@ Proof. split; vm_compute; reflexivity. Qed.
 
 Example ex_refused : ~ accepts flocq_fc ex_reg (VList [VInt 1; VDict [(VInt 2, VInt (2 ^ 63))]]).
 Proof. intro H. cbn [accepts fold_right fst snd] in H. decompose [and] H. lia. Qed.
+
+(* overlapping setRootId ranges: the second class is refused whether it is a Serializable or an enum (D21) *)
+Example ex_registry_id_in_use :
+  snd (Registry.rrun Registry.reg0 [Registry.RSetRoot 1 128; Registry.RDefSer 0 10; Registry.RDefEnum 1 11; Registry.RDefSer 1 12; Registry.RDefEnum 1 10]) =
+  [(0, 0); (128, 0); (128, 1); (129, 0); (130, 0)].
+Proof. exact RegistryP.id_in_use_refused. Qed.
